@@ -59,6 +59,7 @@ func BuildWorlds(cfg Config, prop string, nFix, nSyn, rejectPct int, rich bool, 
 			switch nAcc {
 			case 0:
 				opts.SetupName = "my.setup.go"
+				opts.NearMiss = true
 				opts.ForceHooks = true
 				opts.Surroundings = 3
 			case 1:
@@ -69,6 +70,7 @@ func BuildWorlds(cfg Config, prop string, nFix, nSyn, rejectPct int, rich bool, 
 				opts.ThirdParty = true
 			case 2:
 				opts.SetupName = "user.gorm.go"
+				opts.CRLF = true
 				opts.DotGoDir = true
 				opts.Competing = true
 				opts.Big = 1
